@@ -27,9 +27,11 @@
      token (ignored) then  index coefficient  pairs.  Rational parts are TWO tokens  num den.
 
    What is modelled and not verified: GMP's readers (mpz/mpq/mpf_set_str) by [mpq_str_value] and
-   [decimal_value]; C int/long overflow in atoi/sscanf is not modelled (values are unbounded). *)
+   [decimal_value].  The C integer conversions (atoi, sscanf %d / %ld, the double product with LOG2_10
+   and its conversion to long) are modelled as glibc / x86-64 perform them: see CIntModel.v. *)
 Require Import String Ascii List ZArith NArith QArith Bool.
 Require Import MPSV.PolFile.Chars MPSV.PolFile.DecRatModel.
+Require Export MPSV.PolFile.CIntModel.
 Import ListNotations.
 Local Open Scope char_scope.
 
@@ -85,10 +87,7 @@ Definition mk_structure (real : bool) (t : ctype) : structure :=
   | false, TInteger => S_CI | false, TRational => S_CQ | false, TFloat => S_CF
   end.
 
-(* LOG2_10 = 3.32192809488736234787 as the double it is: 7480317065143153 / 2^51 *)
-Definition LOG2_10_num : Z := 7480317065143153.
-Definition LOG2_10_den : Z := 2251799813685248.
-Definition prec_bits (digits : Z) : Z := Z.quot (digits * LOG2_10_num) LOG2_10_den.
+(* prec_bits (digits -> bits, LOG2_10 product in double arithmetic): CIntModel.v *)
 
 Definition term_val (real : bool) (t : term) : raw * raw :=
   (canon (num_value (t_re t)), if real then raw0 else canon (num_value (t_im t))).
@@ -143,7 +142,12 @@ Definition wf (d : polydesc) : Prop :=
                     /\ d_terms d <> []
                else map t_idx (d_terms d) = seq 0 (S (d_degree d))
      end
-  /\ (d_legacy d = true -> d_kind d = KMonomial).
+  /\ (d_legacy d = true -> d_kind d = KMonomial)
+  (* the numbers the readers convert with atoi / sscanf fit the C types they are converted to *)
+  /\ degree_in_range (Z.of_nat (d_degree d))
+  /\ match d_prec d with
+     | Some P => if d_legacy d then prec2_in_range (Zpos P) else prec3_in_range (Zpos P)
+     | None => True end.
 
 (* ================================================================== rendering *)
 
@@ -417,17 +421,25 @@ Definition sign_split (l : text) : bool * text :=
   | [] => (false, l)
   end.
 
+(* atoi = (int) strtol (l, NULL, 10): blanks, optional sign, digits; saturation to long, then the low 32 bits *)
 Definition atoi (l : text) : Z :=
   let (neg, r) := sign_split (ltrim l) in
-  let v := Z.of_N (digits_val (fst (span_digits r))) in
-  if neg then (- v)%Z else v.
+  int_of_digits neg (fst (span_digits r)).
 
-(* sscanf (tok, "%d"): None when no integer can be matched *)
+(* sscanf (tok, "%d"): None when no integer can be matched; the value like atoi's *)
 Definition scan_int (l : text) : option Z :=
   let (neg, r) := sign_split (ltrim l) in
   match fst (span_digits r) with
   | [] => None
-  | d => let v := Z.of_N (digits_val d) in Some (if neg then (- v)%Z else v)
+  | d => Some (int_of_digits neg d)
+  end.
+
+(* sscanf (tok, "%ld"): saturates like strtol *)
+Definition scan_long (l : text) : option Z :=
+  let (neg, r) := sign_split (ltrim l) in
+  match fst (span_digits r) with
+  | [] => None
+  | d => Some (strtol_digits neg d)
   end.
 
 Record settings := { s_struct : structure; s_density : density; s_repr : kind; s_prec : Z; s_n : Z }.
@@ -662,7 +674,7 @@ Definition parse_v2 (toks : list text) : result :=
       let real := if c1 =c? "r" then Some true else if c1 =c? "c" then Some false else None in
       let ct := if c2 =c? "q" then Some TRational else if c2 =c? "i" then Some TInteger
                 else if c2 =c? "f" then Some TFloat else None in
-      match dens, real, ct, scan_int tp, scan_int tn with
+      match dens, real, ct, scan_long tp, scan_int tn with
       | Some dn, Some rl, Some ct, Some p, Some n =>
         if (n <? 0)%Z then ParseError        (* "Error reading the degree of the polynomial": tested before the 'u' hook *)
         else
